@@ -1523,9 +1523,11 @@ func (e *Exec) appendOp(s SliceV, t Value, fn *ssa.Builtin) Value {
 		}
 	}
 	var elemT types.Type
-	if sig, ok := fn.Type().(*types.Signature); ok {
-		if sl, ok := sig.Params().At(0).Type().Underlying().(*types.Slice); ok {
-			elemT = sl.Elem()
+	if fn != nil {
+		if sig, ok := fn.Type().(*types.Signature); ok {
+			if sl, ok := sig.Params().At(0).Type().Underlying().(*types.Slice); ok {
+				elemT = sl.Elem()
+			}
 		}
 	}
 	b := e.newBacking(newcap, "append")
